@@ -436,7 +436,10 @@ Ident(n) == [j \in 1..n |-> j]
 RenameMaps == UNION {[d -> Base] : d \in SUBSET LiveNames \ {{}}}
 
 Next ==
-    \/ \E r \in RockBase : AddRocktype(r) \/ DeleteRocktype(r)
+    \/ \E r \in RockBase : (AddRocktype(r) /\ (r \in DOMAIN rockDict => r \notin UsedRocks))     \* domain of the generated behaviours: a rock
+                                \* type in use is not replaced (recorded executions may do it: its blocks then keep the old object, and the
+                                \* driver leaves that name alone afterwards)
+                            \/ DeleteRocktype(r)
     \/ \E r, q \in RockBase : RenameRocktype(r, q)
     \/ CleanRocktypes /\ rocks' # rocks
     \/ \E n \in Base, r \in RockBase : AddBlock(n, r, DefaultVol)
